@@ -262,10 +262,18 @@ class SpecialOperand(Operand):
             if not self.operand_string:
                 raise OperandTypeError("one or more registers must be specified")
 
+            # The hardware stack instructions can push or pull U, the user stack instructions S
+            own_stack, other_stack = ("S", "U") if self.instruction.mnemonic in ["PSHS", "PULS"] else ("U", "S")
+
             registers = self.operand_string.split(",")
             for register in registers:
                 if register not in REGISTERS:
                     raise OperandTypeError("[{}] unknown register".format(register))
+
+                if register == own_stack:
+                    raise OperandTypeError(
+                        "[{}] cannot be used with [{}]".format(register, self.instruction.mnemonic)
+                    )
 
                 post_byte |= 0x06 if register == "D" else 0x00
                 post_byte |= 0x01 if register == "CC" else 0x00
@@ -274,7 +282,7 @@ class SpecialOperand(Operand):
                 post_byte |= 0x08 if register == "DP" else 0x00
                 post_byte |= 0x10 if register == "X" else 0x00
                 post_byte |= 0x20 if register == "Y" else 0x00
-                post_byte |= 0x40 if register == "U" else 0x00
+                post_byte |= 0x40 if register == other_stack else 0x00
                 post_byte |= 0x80 if register == "PC" else 0x00
 
         if self.instruction.mnemonic == "EXG" or self.instruction.mnemonic == "TFR":
